@@ -595,6 +595,12 @@ func (data *Data) DropShard(id uint64) {
 
 // CopyShardOwner copies a shard owner by ID and NodeID.
 func (data *Data) CopyShardOwner(id, nodeID uint64) {
+	// Only a data node can own a shard: the node may have been removed while the copy
+	// was under way.
+	if data.DataNode(nodeID) == nil {
+		return
+	}
+
 	found := -1
 	for dbidx, dbi := range data.Databases {
 		for rpidx, rpi := range dbi.RetentionPolicies {
